@@ -28,12 +28,52 @@ type remote struct {
 	lines   chan string
 	stderr  *headTail
 	starts  int
-	maxMB   int
+	maxMB   int           // stack limit of the child in MB (0 = runtime default, 1 GB)
+	cpuMax  time.Duration // per-stage watchdog on the CPU time consumed by the child (robust against a loaded machine)
+	wallMax time.Duration // per-stage watchdog on wall time (a child that is blocked burns no CPU)
 	srvFile string
+	deadCPU time.Duration // CPU time of children already reaped
+}
+
+// procCPU reads the CPU time (user+system) consumed so far by a live process.
+func procCPU(pid int) time.Duration {
+	b, err := os.ReadFile(fmt.Sprintf("/proc/%d/stat", pid))
+	if err != nil {
+		return 0
+	}
+	s := string(b)
+	i := strings.LastIndexByte(s, ')')
+	if i < 0 {
+		return 0
+	}
+	f := strings.Fields(s[i+1:])
+	if len(f) < 13 {
+		return 0
+	}
+	var ut, st int64
+	fmt.Sscan(f[11], &ut)
+	fmt.Sscan(f[12], &st)
+	return time.Duration(ut+st) * (time.Second / 100) // USER_HZ = 100
+}
+
+// cpu is the CPU time consumed by all children so far.
+func (r *remote) cpu() time.Duration {
+	t := r.deadCPU
+	if r.cmd != nil && r.cmd.Process != nil {
+		t += procCPU(r.cmd.Process.Pid)
+	}
+	return t
+}
+
+func (r *remote) reaped() {
+	if r.cmd != nil && r.cmd.ProcessState != nil {
+		r.deadCPU += r.cmd.ProcessState.UserTime() + r.cmd.ProcessState.SystemTime()
+	}
+	r.cmd = nil
 }
 
 func newRemote(e *env) *remote {
-	r := &remote{e: e, maxMB: 128}
+	r := &remote{e: e, maxMB: 128, cpuMax: 10 * time.Second, wallMax: 300 * time.Second}
 	r.srvFile = filepath.Join(e.scratch, "server.json")
 	v := core.Violation{Property: prop, Key: "server", Replay: []byte(`{"entry":"@server"}`)}
 	b, _ := json.Marshal(v)
@@ -48,7 +88,7 @@ func (r *remote) start() error {
 	}
 	cmd := exec.Command(self, "replay", r.srvFile, "--quiet")
 	cmd.Env = append(os.Environ(), "GOTRACEBACK=single", fmt.Sprintf("C20_MAXSTACK_MB=%d", r.maxMB),
-		"C20_SCRATCH="+filepath.Join(r.e.scratch, fmt.Sprintf("srv%d", r.starts)), "GOMAXPROCS=2")
+		"C20_TIER="+r.e.c.Tier, "C20_SCRATCH="+filepath.Join(r.e.scratch, fmt.Sprintf("srv%d", r.starts)), "GOMAXPROCS=2")
 	stdin, err := cmd.StdinPipe()
 	if err != nil {
 		return err
@@ -95,7 +135,7 @@ func (r *remote) stop() {
 		r.cmd.Process.Kill()
 		<-done
 	}
-	r.cmd = nil
+	r.reaped()
 }
 
 func (r *remote) kill() {
@@ -106,7 +146,7 @@ func (r *remote) kill() {
 	for range r.lines { // drain until the reader goroutine sees EOF
 	}
 	r.cmd.Wait()
-	r.cmd = nil
+	r.reaped()
 }
 
 // reply is everything the server said about one request.
@@ -138,8 +178,10 @@ func (r *remote) do(req request) reply {
 		r.stdin.Write(b)
 	}
 	inflight := "startup"
-	timer := time.NewTimer(stageTimeout)
-	defer timer.Stop()
+	stageStart := time.Now()
+	stageCPU := procCPU(r.cmd.Process.Pid)
+	tick := time.NewTicker(200 * time.Millisecond)
+	defer tick.Stop()
 	for {
 		select {
 		case l, ok := <-r.lines:
@@ -150,12 +192,12 @@ func (r *remote) do(req request) reply {
 				if r.cmd.ProcessState != nil {
 					state = r.cmd.ProcessState.String()
 				}
-				r.cmd = nil
+				r.reaped()
 				errText := r.stderr.String()
 				kind := fatalKind(errText + "\n" + state)
 				rep.died = true
 				rep.results = append(rep.results, res{Stage: inflight, Kind: "fatal", Site: kind,
-					Detail: "process died: " + firstLine(strings.TrimSpace(strings.ReplaceAll(r.stderr.Head(300), "\n", " | ")), 300) + " (" + state + ")"})
+					Detail: "the process died: " + firstLine(strings.TrimSpace(strings.ReplaceAll(r.stderr.Head(300), "\n", " | ")), 300) + " (" + state + ")"})
 				return rep
 			}
 			if len(l) < 1 {
@@ -164,13 +206,8 @@ func (r *remote) do(req request) reply {
 			switch l[0] {
 			case 'S':
 				inflight = strings.TrimPrefix(l, "S ")
-				if !timer.Stop() {
-					select {
-					case <-timer.C:
-					default:
-					}
-				}
-				timer.Reset(stageTimeout)
+				stageStart = time.Now()
+				stageCPU = procCPU(r.cmd.Process.Pid)
 			case 'R':
 				var x res
 				if json.Unmarshal([]byte(l[2:]), &x) == nil {
@@ -183,13 +220,23 @@ func (r *remote) do(req request) reply {
 			case 'D':
 				return rep
 			}
-		case <-timer.C:
+		case <-tick.C:
+			used := procCPU(r.cmd.Process.Pid) - stageCPU
+			wall := time.Since(stageStart)
+			if used < r.cpuMax && wall < r.wallMax {
+				continue
+			}
 			r.kill()
 			rep.died = true
-			rep.results = append(rep.results, res{Stage: inflight, Kind: "hang", Detail: fmt.Sprintf("no return within %v (process killed)", stageTimeout)})
+			rep.results = append(rep.results, res{Stage: inflight, Kind: "hang",
+				Detail: fmt.Sprintf("no return after %.0f s of CPU time (%.0f s wall); process killed", used.Seconds(), wall.Seconds())})
 			return rep
 		}
 	}
+}
+
+func (r *remote) doLiteral(entry, in string) reply {
+	return r.do(request{Entry: entry, Literal: &in})
 }
 
 // headTail keeps the first and last max bytes written to it.
